@@ -211,6 +211,15 @@ func genConform(t *rapid.T, m *Model) (doc string, multiRule bool, patternEl boo
 				multiRule = true
 			}
 		}
+		// custom data attributes: with AllowDataAttributes every well-formed data-* name is conforming on
+		// every allowed element, also one that holds "data-" more than once (seeded C07-13)
+		if m.dataAttrs && rapid.IntRange(0, 3).Draw(t, "dataattr") == 0 {
+			k := rapid.SampledFrom(conformDataNames).Draw(t, "dataname")
+			if !used[k] && wellFormedData(k) {
+				used[k] = true
+				attrs = append(attrs, html.Attribute{Key: k, Val: rapid.SampledFrom([]string{"1", "", "k v", "data-x", "a-b_c"}).Draw(t, "dataval")})
+			}
+		}
 		if len(attrs) == 0 && !m.MayBeBare(ce.name) {
 			continue
 		}
@@ -458,3 +467,7 @@ func checkC07(c *Case, r *Rec) error {
 func init() { register(&Prop{ID: "C07", Gen: genC07, Check: checkC07}) }
 
 var _ = bluemonday.NewPolicy
+
+// names of custom data attributes a conforming document may use under AllowDataAttributes
+var conformDataNames = []string{"data-x", "data-x-y", "data-1", "data--", "data-data-x", "data-user-data-id", "data-metadata-key", "data-a.b", "data-a_b",
+	"data-\u00e9", "data-data-", "data-x-data-", "data-ondata-click"}
